@@ -16,7 +16,7 @@ for p in props:
             "evidence_file": "/verif/evidence/%s.json" % pid,
             "replay_cmd_template": PY + " --replay {path}",
             "engine": "coq-model+correspondence",
-            "level_claimed": {"category": c.get("category", "proof"), "text": c["text"], "design_ref": c.get("design_ref", "DESIGN.md section 6, " + pid)},
+            "level_claimed": {"category": c.get("category", "proof"), "text": c["text"], "design_ref": c.get("design_ref", "DESIGN.md section 4, " + pid)},
             "level_note": c["note"],
             "technique": c.get("technique", "machine-checked proof in Coq 8.16 of a hand-written executable model, tied to /repo by exact differential correspondence (vm_compute) on every run"),
         })
